@@ -280,8 +280,9 @@ func (c *Classifier) Normalize(in []byte) []byte {
 		buf.WriteString(first)
 	}
 	for _, t := range doc.Tokens[1:] {
-		// Only write out an EOL token that incremented the line
-		if t.Line == prevLine+1 {
+		// Write out an EOL for every line the token advanced: a word joined across
+		// hyphenated line breaks is followed by a token more than one line further.
+		for l := prevLine; l < t.Line; l++ {
 			buf.WriteString(eol)
 		}
 
